@@ -1365,6 +1365,389 @@ def run_generated(ctx):
         raise common.Infra("no generated assembly could be built")
 
 
+# --------------------------------------------------------------------------- blocks with a NEGATIVE-volume gap
+def gen_assembly_gap(rng, idx, centre_grid):
+    """an assembly whose blocks hold a Void (or gas) gap between fuel and clad that is slightly negative, exactly zero or
+    positive: the fuel's hot outer diameter is set past / onto / inside the clad's inner diameter (dimension-driven) or the
+    fuel is heated until it crosses (temperature-driven). armi allows the negative area (Component._checkNegativeArea,
+    getVolumeFractions notes). -> (assembly, [sign per block])"""
+    from armi.reactor import assemblies, grids
+
+    nb = rng.randint(1, 4)
+    a = assemblies.HexAssembly("gap%02d" % idx)
+    a.spatialGrid = grids.AxialGrid.fromNCells(nb)
+    z = 0.0
+    signs = []
+    template = None
+    for j in range(nb):
+        h = common.dyadic(rng, 10, 40, 1)
+        if template is None:
+            # one cross section for the whole assembly (equal block areas: assembly-level clauses are judged strictly)
+            b = template = gen_block(rng, "nb%02d_%d" % (idx, j), h, force_gap=True)
+        else:
+            b = copy.deepcopy(template)
+            b.setName("nb%02d_%d" % (idx, j))
+            b.setHeight(h)
+        fuel = b.getComponentByName("fuel")
+        clad = b.getComponentByName("clad")
+        gap = b.getComponentByName("gap")
+        want = rng.choice(["negative", "negative", "zero", "positive", "negative-by-temperature"])
+        cid = float(clad.getDimension("id"))
+        if want == "negative":
+            fuel.setDimension("od", cid * rng.choice([1.00390625, 1.0009765625, 1.015625]), cold=False)
+        elif want == "zero":
+            fuel.setDimension("od", cid, cold=False)
+        elif want == "positive":
+            fuel.setDimension("od", cid * 0.96875, cold=False)
+        else:
+            # cold: inside the clad; hot: heated until it has crossed (or as far as the material's range allows)
+            fuel.setDimension("od", float(clad.getDimension("id", cold=True)) * 0.998046875, cold=True)
+            fuel.setTemperature(rng.choice([700.0, 800.0, 850.0]))
+        b.p.zbottom, b.p.ztop = z, z + h
+        z += h
+        a.add(b)
+    if centre_grid is not None:
+        a.spatialLocator = centre_grid[0, 0, 0]
+    for b in a:
+        b.clearCache()
+        for c in b:
+            c.clearCache()
+        b.getVolumeFractions()
+        ga = float(b.getComponentByName("gap").getArea())
+        signs.append("negative" if ga < 0 else ("zero" if ga == 0 else "positive"))
+    return a, signs
+
+
+def run_negative_gap(ctx):
+    """blocks with a negative / zero / positive Void gap (see gen_assembly_gap), detached or at the centre of a third-core
+    grid: volume fractions are the SIGNED V_child / V_block and sum to one, homogenised densities weight by the signed
+    volumes, every setter at block and assembly level reads back; everything compared with Model/Compo."""
+    from armi.reactor import grids
+
+    rng = random.Random(f"{ctx.prop}-{ctx.seed}-gap")
+    third = grids.HexGrid.fromPitch(16.0, numRings=3, symmetry="third periodic")
+    for idx in range(ctx.pick(2, 16)):
+        try:
+            with common.quiet():
+                a, signs = gen_assembly_gap(rng, idx, third if rng.random() < 0.4 else None)
+        except (ValueError, ArithmeticError) as e:
+            ctx.count(f"negative-gap assembly refused by armi ({type(e).__name__})")
+            continue
+        for sg in signs:
+            ctx.count(f"block with a {sg} gap")
+        blocks = list(a)
+        label = f"negative gap sym={a.getSymmetryFactor():g}"
+        case = {"stream": label, "assembly": idx, "gaps": signs}
+        fail = lambda k, c, o, e, case=case: ctx.fail(k, c, case, observed=o, expected=e)  # noqa: E731
+        mir = Mirror()
+        paths = mir.load([a], extra_nucs=("PU239", "AM241", "HE4"))
+
+        def fractions(tag):
+            with common.quiet():
+                for b in blocks:
+                    fr = b.getVolumeFractions()
+                    vb = sum(float(c.getVolume()) for c in b)
+                    tot = sum(float(f) for _, f in fr)
+                    if not fclose(tot, 1.0):
+                        fail("volume-fractions-sum-block", "volume fractions sum to one (signed volumes)", tot, 1.0)
+                    for c, f in fr:
+                        want = float(c.getVolume()) / vb
+                        if not fclose(float(f), want, scale=1e-12):
+                            ctx.fail("volume-fraction-signed-block", "getVolumeFractions()[c] == V_c / V_block with the SIGNED "
+                                     "volumes (a negative gap counts negative)", dict(case, block=b.name, comp=c.name, after=tag),
+                                     observed=float(f), expected=want)
+                            break
+                    if not fclose(float(b.getVolume()) * float(b.getSymmetryFactor()), vb):
+                        fail("block-volume-signed-sum", "block volume x symmetry factor == signed sum of the component volumes",
+                             float(b.getVolume()) * float(b.getSymmetryFactor()), vb)
+                    add_volfracs(ctx, mir, f"{label}: Node.volFrac vs getVolumeFractions ({tag})",
+                                 dict(case, block=b.name, observed_at="block"), b, paths[id(b)])
+
+        fractions("built")
+        for o in [a] + blocks:
+            nucs = pick_nucs(rng, o, 4)
+            additivity(o, fail, nucs)
+            add_snap(ctx, mir, f"{label}: Model/Compo vs {level_of(o)}", dict(case, observed_at=level_of(o)), o, paths[id(o)], nucs)
+        # setters at block and assembly level (and a few components), read back and compared after every edit
+        targets = blocks + blocks + [a] + [c for b in blocks[:2] for c in rng.sample([x for x in b if x.name != "gap"], 1)]
+        nedits = ctx.pick(10, 30)
+        for step in range(nedits):
+            if step and step % 6 == 0:
+                paths = mir.load([a], extra_nucs=("PU239", "AM241", "HE4"))
+            obj = rng.choice(targets)
+            op, args = gen_edit(rng, obj)
+            do_edit(ctx, mir, paths, obj, op, args, label, step)
+        fractions("after the edits")
+        run_session(ctx, mir, label)
+
+
+def run_core_negative(ctx, r):
+    """LAST stream (it changes the reference reactor): the sodium bond of fuel blocks in the centre (factor 3), an edge
+    (factor 2) and two ordinary assemblies is made negative / zero by setting the hot fuel diameter past / onto the clad's
+    inner diameter - a negative-volume component that HOLDS nuclides. Signed volume fractions, the atoms chain
+    core = assemblies = blocks = components, and setters at block, assembly and CORE level read back; compared with the
+    model at every level."""
+    rng = random.Random(f"{ctx.prop}-{ctx.seed}-coregap")
+    core = r.core
+    assems = list(core)
+    cut3 = [a for a in assems if a.getSymmetryFactor() == 3.0]
+    cut2 = [a for a in assems if a.getSymmetryFactor() == 2.0]
+    plain = [a for a in assems if a.getSymmetryFactor() == 1.0 and any(b.getComponentByName("bond") is not None for b in a)]
+    chosen = cut3[:1] + (rng.sample(cut2, 1) if cut2 else []) + rng.sample(plain, min(2, len(plain)))
+    changed = []
+    with common.quiet():
+        for a in chosen:
+            for b in a:
+                fuel, clad, bond = (b.getComponentByName(n) for n in ("fuel", "clad", "bond"))
+                if None in (fuel, clad, bond):
+                    continue
+                want = rng.choice(["negative", "negative", "zero"])
+                cid = float(clad.getDimension("id"))
+                fuel.setDimension("od", cid * (rng.choice([1.00390625, 1.0009765625]) if want == "negative" else 1.0), cold=False)
+                b.clearCache()
+                for c in b:
+                    c.clearCache()
+                b.getVolumeFractions()
+                changed.append(b)
+                ctx.count("reference block with a %s sodium bond" % ("negative" if float(bond.getVolume()) < 0 else "zero"))
+    EPOCH[0] += 1
+    case = {"stream": "core negative bond", "assemblies": [a.name for a in chosen]}
+    fail = lambda k, c, o, e, case=case: ctx.fail(k, c, case, observed=o, expected=e)  # noqa: E731
+    mir = Mirror()
+    # thorough: the whole core is mirrored (core-level model comparison); quick: the changed assemblies only - the core level
+    # is then judged by the oracle alone (atoms chain, read-back)
+    full = ctx.thorough
+    paths = mir.load(assems if full else chosen, extra_nucs=("PU239", "AM241", "HE4"))
+    if full:
+        paths[id(core)] = []
+    nucs = [n for n in ("NA23", "U235", "FE56") if n in core.getNuclides()]
+
+    def chain(tag):
+        with common.quiet():
+            blocks = core.getBlocks()
+            vol = float(core.getVolume())
+            for n in nucs[:2]:
+                top = float(core.getNumberDensity(n)) * vol
+                sa = sum(float(a.getNumberDensity(n)) * float(a.getVolume()) for a in assems)
+                sb = sum(float(b.getNumberDensity(n)) * float(b.getVolume()) for b in blocks)
+                sc = sum(float(c.getNumberDensity(n)) * float(c.getVolume()) / float(b.getSymmetryFactor())
+                         for b in blocks for c in b)
+                for name, v in (("assemblies", sa), ("blocks", sb), ("components", sc)):
+                    if not fclose(top, v, tol=1e-8):
+                        ctx.fail(f"atoms-chain-core-{name}", f"core N x V of {n} == sum over {name} (signed volumes)",
+                                 dict(case, after=tag), observed=top, expected=v)
+            for b in changed:
+                fr = b.getVolumeFractions()
+                vb = sum(float(c.getVolume()) for c in b)
+                for c, f in fr:
+                    if not fclose(float(f), float(c.getVolume()) / vb, scale=1e-12):
+                        ctx.fail("volume-fraction-signed-block", "getVolumeFractions()[c] == V_c / V_block with the SIGNED volumes",
+                                 dict(case, block=b.name, comp=c.name, after=tag), observed=float(f),
+                                 expected=float(c.getVolume()) / vb)
+                        break
+                if not fclose(sum(float(f) for _, f in fr), 1.0):
+                    ctx.fail("volume-fractions-sum-block", "volume fractions sum to one (signed volumes)",
+                             dict(case, block=b.name, after=tag), observed=sum(float(f) for _, f in fr), expected=1.0)
+
+    chain("bond made negative")
+    if full:
+        add_snap(ctx, mir, "core negative bond: Model/Compo vs Core", dict(case, observed_at="core"), core, [], nucs)
+    for a in chosen:
+        additivity(a, fail, nucs[:2])
+        add_snap(ctx, mir, "core negative bond: Model/Compo vs Assembly", dict(case, assembly=a.name), a, paths[id(a)], nucs)
+    for b in changed[:6]:
+        additivity(b, fail, pick_nucs(rng, b, 3, extra=["NA23"]))
+        add_snap(ctx, mir, "core negative bond: Model/Compo vs Block", dict(case, block=b.name), b, paths[id(b)], nucs)
+        add_volfracs(ctx, mir, "core negative bond: Node.volFrac vs Block.getVolumeFractions", dict(case, block=b.name), b,
+                     paths[id(b)])
+    # setters: core level (one nuclide held by the negative bond, one held by the fuel), then blocks / assemblies
+    for step, n0 in enumerate(nucs[:ctx.pick(1, 2)]):
+        op, a_ = "setnd", {"n": n0, "v": float(core.getNumberDensity(n0)) * rng.choice([1.25, 0.75])}
+        bef = {"nucs": nucs, "nd": {n: float(core.getNumberDensity(n)) for n in nucs},
+               "mass": {n: float(core.getMass(n)) for n in nucs}, "rho": None, "mf": {}, "vol": float(core.getVolume()),
+               "mtot": None}
+        ecase = dict(case, object="core", level="core", step=step, op=op, args=a_)
+        res = apply_real(core, op, a_)
+        ctx.count(f"edit {op} @core (negative bond): {res}")
+        ctx.case(("core-negative", op, n0), nontrivial=True)
+        edit_oracle(core, op, a_, res, bef, lambda k, c, o, e, ecase=ecase: ctx.fail(k, c, ecase, observed=o, expected=e))
+        if full:
+            mir.emit(model_line(mir, [], op, a_), expect_result(ctx, "core negative bond: edit accepted/refused", ecase, res))
+            add_snap(ctx, mir, f"core negative bond: Model/Compo vs Core after {op}", ecase, core, [], nucs)
+            b0 = changed[0]
+            add_snap(ctx, mir, f"core negative bond: Model/Compo vs Block after core {op}", ecase, b0, paths[id(b0)], nucs)
+        else:
+            # the model has not seen the core-level edit: reload the changed assemblies from the real objects
+            paths = mir.load(chosen, extra_nucs=("PU239", "AM241", "HE4"))
+    targets = changed[:4] + chosen
+    below = {k: v for k, v in paths.items() if k != id(core)}      # (the parent chain compared after an edit stops at the assembly)
+    for step in range(ctx.pick(3, 24)):
+        obj = rng.choice(targets)
+        op, a_ = gen_edit(rng, obj, allow_absent=False)
+        do_edit(ctx, mir, below, obj, op, a_, "core negative bond", 100 + step)
+    chain("core, block and assembly edits")
+    run_session(ctx, mir, "core negative bond")
+
+
+# --------------------------------------------------------------------------- dummy nuclides; exact-zero requests; merging
+GETMASSES_KEY = "component-getmasses-ignores-symmetry-cut"
+
+
+def getmasses_oracle(o, fail):
+    """getMasses() (the fast per-nuclide masses) agrees with getMass(n) for every nuclide and sums to getMass(); components
+    of symmetry-cut blocks are judged under their own key (defect repaired by fa646bc: it must never fire)"""
+    lvl = level_of(o)
+    with common.quiet():
+        ms = {n: float(v) for n, v in o.getMasses().items()}
+        mt = float(o.getMass())
+        amb = ambiguous(o)      # element names held next to their isotopes somewhere below: getMass(name) expands them
+        one = {n: float(o.getMass(n)) for n in [x for x in ms if x not in amb][:6]}
+    if lvl == "assembly" and len({round(float(b.getArea()), 9) for b in o}) > 1:
+        return      # Assembly.getVolume is the first block's area x height (finding assembly-volume-first-block-area)
+    key = f"getmasses-{lvl}"
+    if lvl == "component" and o.parent is not None and float(o.parent.getSymmetryFactor()) != 1.0:
+        key = GETMASSES_KEY
+    if not fclose(sum(ms.values()), mt, scale=abs(mt) * 1e-9):
+        fail(key, "sum of getMasses() == getMass()", sum(ms.values()), mt)
+        return
+    for n, v in one.items():
+        if not fclose(ms[n], v, scale=abs(mt) * 1e-9):
+            fail(key, f"getMasses()[{n}] == getMass({n})", ms[n], v)
+            return
+
+
+def run_dump_and_zero(ctx):
+    """(a) compositions carrying the dummy nuclides DUMP1 / DUMP2 (10 and 240 g/mole) with non-zero density: additivity,
+    mass = density x volume = sum of the nuclide masses, setMass / addMass of them read back, the densityTools round
+    trip; (b) exact-zero requests at block and assembly level: updateNumberDensities({n: 0.0}) zeroes n in every child,
+    setNumberDensities resets the unlisted nuclides, changeNDensByFactor(0.0) zeroes everything; (c)
+    Block.mergeWithBlock(other, f) incl. f = 1.0 (nuclides the other block lacks vanish). All through the model too."""
+    from armi.reactor import grids
+    from armi.utils import densityTools
+
+    rng = random.Random(f"{ctx.prop}-{ctx.seed}-dumpzero")
+    third = grids.HexGrid.fromPitch(16.0, numRings=3, symmetry="third periodic")
+    label = "dump and zero"
+    for idx in range(ctx.pick(2, 12)):
+        try:
+            with common.quiet():
+                a = gen_assembly(rng, 700 + idx, third if rng.random() < 0.4 else None)
+        except (ValueError, ArithmeticError):
+            continue
+        blocks = list(a)
+        mir = Mirror()
+        paths = mir.load([a], extra_nucs=("DUMP1", "DUMP2", "PU239"))
+        case = {"stream": label, "assembly": idx}
+        fail = lambda k, c, o, e, case=case: ctx.fail(k, c, case, observed=o, expected=e)  # noqa: E731
+        step = [0]
+
+        def edit(obj, op, args):
+            step[0] += 1
+            return do_edit(ctx, mir, paths, obj, op, args, label, step[0])
+
+        # (a) dummy nuclides introduced in a component, then handled at block / assembly level
+        b0 = blocks[0]
+        fuel = b0.getComponentByName("fuel")
+        edit(fuel, "upd", {"d": {"DUMP1": 0.0009765625, "DUMP2": 0.001953125}})
+        for o in (fuel, b0, a):
+            additivity(o, fail, ["DUMP1", "DUMP2"])
+            add_snap(ctx, mir, f"{label}: Model/Compo vs {level_of(o)} (dummy nuclides)", dict(case, observed_at=level_of(o)),
+                     o, paths[id(o)], ["DUMP1", "DUMP2"])
+            getmasses_oracle(o, fail)
+        for o in (fuel, b0, a):
+            m1 = float(o.getMass("DUMP1"))
+            edit(o, "setmass", {"n": "DUMP1", "m": 1.5 * m1 + 2.0})
+            edit(o, "addmass", {"n": "DUMP2", "m": 8.0})
+        rho = common.dyadic(rng, 1, 19, 3)
+        mf = {"DUMP1": 0.25, "DUMP2": 0.125, "U235": 0.5, "FE56": 0.125}
+        nd = densityTools.getNDensFromMasses(rho, mf)
+        back = float(densityTools.calculateMassDensity(nd))
+        if not fclose(back, rho):
+            fail("massdensity-ndens-inverse-dummy", "calculateMassDensity(getNDensFromMasses(rho, mf)) == rho with dummy nuclides",
+                 back, rho)
+        ids = [mir.nid(n) for n in mf]
+
+        def chk_nd(line, nd=nd, mf=mf):
+            try:
+                qs = [common.unrat(x) for x in common.parse_list(line)]
+            except Exception:
+                ctx.disagree(f"{label}: getNDensFromMasses with dummy nuclides", case, line, list(nd.values()))
+                return
+            if any(not rel_close(nd[n], q) for n, q in zip(mf, qs)):
+                ctx.disagree(f"{label}: getNDensFromMasses with dummy nuclides", case, [float(q) for q in qs], list(nd.values()))
+
+        mir.emit(f"ndfrommasses {rat(rho)} {intlist(ids)} {ratlist(list(mf.values()))}", chk_nd)
+        # (b) exact-zero requests at composite level
+        for o in [rng.choice(blocks), a]:
+            lvl = level_of(o)
+            held = [n for n in sorted(o.getNuclides()) if float(o.getNumberDensity(n)) > 0]
+            if not held:
+                continue
+            n0 = rng.choice(held)
+            res = edit(o, "upd", {"d": {n0: 0.0}})
+            kids = leaves(o)
+            with common.quiet():
+                left = [(c.name, float(c.getNumberDensity(n0))) for c in kids if float(c.getNumberDensity(n0)) != 0.0]
+            if res == "ok" and (float(o.getNumberDensity(n0)) != 0.0 or left):
+                fail(f"upd-zero-{lvl}", "updateNumberDensities({n: 0.0}) zeroes n at this level and in every component below",
+                     [float(o.getNumberDensity(n0)), left[:3]], 0.0)
+            keep = rng.sample(held, min(2, len(held)))
+            d = {n: float(o.getNumberDensity(n)) * 1.25 or 0.0009765625 for n in keep}
+            res = edit(o, "setnds", {"d": d})
+            with common.quiet():
+                others = [(n, float(o.getNumberDensity(n))) for n in o.getNuclides() if n not in d and float(o.getNumberDensity(n)) != 0.0]
+            if res == "ok" and others:
+                fail(f"setnds-resets-unlisted-{lvl}", "setNumberDensities resets every nuclide it is not given", others[:3], 0.0)
+            ctx.count(f"exact-zero requests @{lvl}")
+        # (c) merging blocks
+        if len(blocks) >= 2:
+            b1, b2 = rng.sample(blocks, 2)
+            with common.quiet():
+                b2c = b2.getComponentByName("clad")
+                if b2c is not None and rng.random() < 0.7:
+                    # make the compositions differ: a nuclide only the first block holds
+                    pass
+            for frac in (rng.choice([0.25, 0.5]), 1.0):
+                with common.quiet():
+                    mine = dict(b1.getNumberDensities())
+                    other = dict(b2.getNumberDensities())
+                want = {n: (1.0 - frac) * mine.get(n, 0.0) + frac * other.get(n, 0.0) for n in set(mine) | set(other)}
+                EPOCH[0] += 1
+                try:
+                    with common.quiet():
+                        b1.mergeWithBlock(b2, frac)
+                    res = "ok"
+                except (ValueError, ZeroDivisionError):
+                    res = "reject"
+                mcase = dict(case, op="mergeWithBlock", fraction=frac, block=b1.name, other=b2.name)
+                mir.emit(model_line(mir, paths[id(b1)], "setnds", {"d": want}),
+                         expect_result(ctx, f"{label}: mergeWithBlock == setNumberDensities(mixture)", mcase, res))
+                ctx.case(("merge", frac, res), nontrivial=True)
+                ctx.count(f"mergeWithBlock fraction {frac:g}: {res}")
+                if res == "ok":
+                    with common.quiet():
+                        got = {n: float(b1.getNumberDensity(n)) for n in want}
+                    for n, w in want.items():
+                        if not fclose(got[n], w, scale=1e-14):
+                            ctx.fail("merge-with-block-mixture", "mergeWithBlock(other, f): N == (1-f) N_this + f N_other for every "
+                                     "nuclide of either block (f = 1: nuclides the other block lacks vanish)",
+                                     dict(mcase, nuclide=n), observed=got[n], expected=w)
+                            break
+                    add_snap(ctx, mir, f"{label}: Model/Compo vs block after mergeWithBlock", mcase, b1, paths[id(b1)],
+                             [n for n in list(want)[:5] if n not in ambiguous(b1)])
+                else:
+                    run_session(ctx, mir, label)
+                    paths = mir.load([a], extra_nucs=("DUMP1", "DUMP2", "PU239"))
+        # changeNDensByFactor(0.0) last: everything vanishes
+        for o in [rng.choice(blocks), a]:
+            res = edit(o, "scale", {"f": 0.0})
+            with common.quiet():
+                left = [(n, float(o.getNumberDensity(n))) for n in o.getNuclides() if float(o.getNumberDensity(n)) != 0.0]
+            if res == "ok" and left:
+                fail(f"scale-zero-{level_of(o)}", "changeNDensByFactor(0.0) zeroes every nuclide", left[:3], 0.0)
+        run_session(ctx, mir, label)
+
+
 # --------------------------------------------------------------------------- composites of arbitrary depth
 def tree_encode(mir, o):
     """generic composites / blocks -> `[sym,kid,..]`; components -> `L;vol;psym;[nuc..];[nd..]` (Drivers/Compo `tree`)"""
@@ -1388,7 +1771,7 @@ def run_trees(ctx):
     # own generator (seeded from property + VERIF_SEED + stream name): the streams that existed before keep their draws
     rng = random.Random(f"{ctx.prop}-{ctx.seed}-trees")
     third = grids.HexGrid.fromPitch(16.0, numRings=3, symmetry="third periodic")
-    for idx in range(ctx.pick(4, 24)):
+    for idx in range(ctx.pick(2, 16)):
         nb = rng.randint(2, 5)
         try:
             with common.quiet():
@@ -1543,7 +1926,7 @@ def run_adjust(ctx):
 
     rng = random.Random(f"{ctx.prop}-{ctx.seed}-adjust")
     third = grids.HexGrid.fromPitch(16.0, numRings=3, symmetry="third periodic")
-    for idx in range(ctx.pick(3, 20)):
+    for idx in range(ctx.pick(2, 16)):
         try:
             with common.quiet():
                 a = gen_assembly(rng, 900 + idx, third if rng.random() < 0.4 else None)
@@ -2248,6 +2631,8 @@ def run(ctx):
             guarded(ctx, "densityTools", lambda: run_conversions(ctx))
             guarded(ctx, "generated", lambda: run_generated(ctx))
             guarded(ctx, "trees", lambda: run_trees(ctx))
+            guarded(ctx, "negative gap", lambda: run_negative_gap(ctx))
+            guarded(ctx, "dump and zero", lambda: run_dump_and_zero(ctx))
             guarded(ctx, "adjustMassFrac", lambda: run_adjust(ctx))
             return
         guarded(ctx, "densityTools", lambda: run_conversions(ctx))
@@ -2256,12 +2641,15 @@ def run(ctx):
         guarded(ctx, "void-and-refill", lambda: run_zero_refill(ctx, r))
         guarded(ctx, "generated", lambda: run_generated(ctx))
         guarded(ctx, "trees", lambda: run_trees(ctx))
+        guarded(ctx, "negative gap", lambda: run_negative_gap(ctx))
+        guarded(ctx, "dump and zero", lambda: run_dump_and_zero(ctx))
         guarded(ctx, "adjustMassFrac", lambda: run_adjust(ctx))
         guarded(ctx, "symmetry factor", lambda: run_symmetry(ctx, r))
         guarded(ctx, "derived shape", lambda: run_derived(ctx, r))
         guarded(ctx, "query order", lambda: run_query_order(ctx, r))
         guarded(ctx, "structure", lambda: run_structure(ctx, r))
         guarded(ctx, "findings", lambda: run_findings(ctx, r))
+        guarded(ctx, "core negative bond", lambda: run_core_negative(ctx, r))
     ctx.rule = ("reference third-core reactor with edge assemblies (symmetry factors 1, 2, 3): every assembly and the core "
                 "compared and checked for additivity; seeded edit sequences (9 edit kinds x 4 levels, values incl. 0.0, 1e-50, "
                 "identity factors, absent nuclides, refused calls) on centre / edge / ordinary assemblies, a void-and-refill "
@@ -2271,6 +2659,8 @@ def run(ctx):
                 "of a neighbour; query-order scripts (volumes evaluated, a sibling of the derived coolant resized by setTemperature "
                 "or setDimension, first query afterwards = block area / coolant area / volume / after clearCache / mass); "
                 "structural edits of an assembly's block list (insert, remove, height change; with and without re-meshing); "
+                "assemblies whose blocks hold a slightly negative / exactly zero / positive Void gap (fuel set or heated past the "
+                "clad's inner diameter): signed volume fractions, additivity and seeded edits at block and assembly level; "
                 "generic composites nested 1-4 levels deep over generated blocks (some cut by symmetry) compared node by node "
                 "with the arbitrary-depth Tree model, before and after edits at random nodes; adjustMassFrac (nuclide / element "
                 "to adjust, optional nuclide / element held constant, values incl. 0 and unchanged) at component, block and "
@@ -2301,6 +2691,10 @@ def search(ctx, disagreements, broken):
             guarded(sub, "generated", lambda: run_generated(sub))
         if any(s.startswith("trees") for s in streams) or not unknown():
             guarded(sub, "trees", lambda: run_trees(sub))
+        if any(s.startswith("negative gap") for s in streams) or not unknown():
+            guarded(sub, "negative gap", lambda: run_negative_gap(sub))
+        if any(s.startswith("dump and zero") for s in streams) or not unknown():
+            guarded(sub, "dump and zero", lambda: run_dump_and_zero(sub))
         if any(s.startswith("adjustMassFrac") for s in streams) or not unknown():
             guarded(sub, "adjustMassFrac", lambda: run_adjust(sub))
         if any(s.startswith("reference core") for s in streams) and not unknown():
